@@ -24,7 +24,7 @@ func init() {
 }
 
 func (p *c05) Rule() string {
-	return "case = one generated scenario with loop-heavy graphs, long / multi-byte inputs and engine options drawn from boundary values (MaxStepsPerSprint {0,1,2,3,5,10,100}, MaxResumesPerSession {0,1,2,5,500}, MaxTemplateChars {0,1,2,3,4,10,100,10000}, MaxFieldChars/MaxResultChars {0,1,2,5,640}) or defaults, + directed corpus. Every engine call is guarded by recover() and a virtual-clock budget of 1000*(MaxSteps+10) clock reads. Non-trivial = a limit was reached or a value was cut (step limit / resume limit failure seen, or a checked text length within 3 of its limit); distinct = SHA of the scenario."
+	return "case = one generated scenario with loop-heavy graphs, long / multi-byte inputs and engine options drawn from boundary values (MaxStepsPerSprint {0,1,2,3,5,10,100}, MaxResumesPerSession {0,1,2,5,500}, MaxTemplateChars {0,1,2,3,4,10,100,10000}, MaxFieldChars/MaxResultChars {0,1,2,5,640}) or defaults, + directed corpus. 6% of the generated cases are of the length-unstable text family (texts of code points whose number grows under NFC / NFD / NFKC / case mapping, at lengths around the limits {1,2,3,5,10,25,64,640}, reaching name / field / result / message / quick reply from a literal, the input, a trigger parameter or the contact); a quarter of the long-text scenarios get such text planted into their incoming messages. Every engine call is guarded by recover() and a virtual-clock budget of 1000*(MaxSteps+10) clock reads. Non-trivial = a limit was reached or a value was cut (step limit / resume limit failure seen, or a checked text length within 3 of its limit); distinct = SHA of the scenario."
 }
 
 // CaseTimeoutS: a scenario normally costs milliseconds; the in-batch watchdog is 30 s, the stage-2 budget (alone) 60 s.
@@ -43,12 +43,15 @@ func (p *c05) Directed() []string {
 	for _, n := range c05Lengths() {
 		names = append(names, n.name)
 	}
+	for _, n := range c05UnstableDirected() {
+		names = append(names, n.name)
+	}
 	return names
 }
 
 func (p *c05) Floors(tier string) []string {
 	return []string{"clause.steps_per_sprint", "clause.no_panic_no_hang", "clause.limit_means_failed", "clause.resume_limit", "clause.goerror_not_from_limit", "clause.msg_text_len", "clause.quick_reply_len",
-		"clause.attachment_len", "clause.name_len", "clause.field_len", "clause.result_len", "seen.step_limit", "seen.resume_limit", "seen.cut_value"}
+		"clause.attachment_len", "clause.name_len", "clause.field_len", "clause.result_len", "seen.step_limit", "seen.resume_limit", "seen.cut_value", "seen.cut_value_length_unstable"}
 }
 
 // c05Lengths: values of limit-1/limit/limit+1 runes with a 4-byte rune on the boundary.
@@ -146,13 +149,23 @@ func (p *c05) scenario(c fw.Case) (*gen.Scenario, *fw.Rand) {
 		if s := findDirected(engineDirected(), c.Directed); s != nil {
 			return s, r
 		}
-		return findDirected(c05Lengths(), c.Directed), r
+		if s := findDirected(c05Lengths(), c.Directed); s != nil {
+			return s, r
+		}
+		return findDirected(c05UnstableDirected(), c.Directed), r
 	}
 	o := gen.ScenOpts{LoopHeavy: r.Chance(0.6), SmallOptions: r.Chance(0.7), LongTexts: r.Chance(0.6), MaxNodes: r.Range(2, 8), ContactChanges: r.Chance(0.5)}
 	if r.Chance(0.05) {
 		return gen.LoopScen(r), r // the long-history family: the resume limit is within reach of the resumes
 	}
-	return gen.Scen(r, o), r
+	if r.Chance(0.06) {
+		return c05UnstableScen(r), r // the length-unstable text family (c05_unstable.go)
+	}
+	s := gen.Scen(r, o)
+	if o.LongTexts && r.Chance(0.25) {
+		c05PlantUnstable(r, s)
+	}
+	return s, r
 }
 
 // errorGoesAwayWithoutLimit re-runs the history with MaxStepsPerSprint raised to 3x+20 and reports whether engine call
@@ -291,6 +304,14 @@ func (p *c05) Run(c fw.Case) fw.Result {
 			}
 			if n >= limit-3 && n <= limit {
 				res.Count("seen.cut_value", 1)
+			}
+			// evidence for the length-unstable class: a checked value at or near its limit that holds code points whose number
+			// changes under normalisation / case mapping (per kind of transformation and per clause)
+			if n >= limit-3 {
+				if k := c05UnstableKind(val); k != "" {
+					res.Count("seen.cut_value_length_unstable", 1)
+					res.Count("seen.length_unstable."+k+"."+clause, 1)
+				}
 			}
 			if !utf8.ValidString(val) {
 				viol("C05|invalid-utf8|"+clause, what+" is not valid UTF-8 after truncation", map[string]any{"value": fmt.Sprintf("%q", trunc(val, 300))})
